@@ -60,7 +60,8 @@ ustr gen_string(Rng &r, const GenCfg &c) {
     else if (w < 94 || !c.allow_long) len = 61 + r.below(540);
     else { static const size_t B[] = { 250, 505, 2040, 4000 }; size_t b = B[r.below(4)]; len = b + r.below(b == 4000 ? 1000 : 16); }
     if (r.chance(1, 12)) {
-        static const char *const T[] = { "data_", "loop_", "save_x", "stop_", "global_", "'''", "\"\"\"", "\n;", "\\\n", ";", "DATA_a", "?", ".", "_name" };
+        static const char *const T[] = { "data_", "loop_", "save_x", "stop_", "global_", "'''", "\"\"\"", "\n;", "\\\n", ";", "DATA_a", "?", ".", "_name",
+            "dAta_", "DAta_x", "dATa_1", "DATa_", "Save_", "sAVE_f", "LOOP_", "Loop_", "loop_x", "looP_", "STOP_", "stop_x", "Global_", "GLOBAL_", "global_x", "globals", "dat_", "sav_x" };
         const char *t = T[r.below(sizeof T / sizeof T[0])];
         ustr tok = U(t);
         if (!c.allow_newlines) for (auto &ch : tok) if (ch == u'\n') ch = u' ';
@@ -72,19 +73,24 @@ ustr gen_string(Rng &r, const GenCfg &c) {
     } else for (size_t i = 0; i < len; ++i) put_random_char(r, c, s);
     return s;
 }
+bool is_reserved_word(const ustr &s) {
+    std::string l; for (size_t i = 0; i < s.size() && i < 8; ++i) { char16_t c = s[i]; if (c >= 'A' && c <= 'Z') c = (char16_t) (c - 'A' + 'a'); l += c < 128 ? (char) c : '?'; }
+    if (l.compare(0, 5, "data_") == 0 || l.compare(0, 5, "save_") == 0) return true;
+    return s.size() <= 7 && (l == "loop_" || l == "stop_" || l == "global_");
+}
 bool bare_ok(const ustr &s) {
     if (s.empty() || s.size() > 2048) return false;
     for (char16_t ch : s) { if (ch <= 0x20 || ch == '[' || ch == ']' || ch == '{' || ch == '}' || ch == 0x7f) return false; }
     char16_t f = s[0];
     if (f == '\'' || f == '"' || f == '#' || f == '$' || f == '_' || f == ';') return false;
-    if (f == 'd' || f == 'D' || f == 'g' || f == 'G' || f == 'l' || f == 'L' || f == 's' || f == 'S') return false;   // conservative: keywords
+    if (is_reserved_word(s)) return false;          // data_* and save_* (any suffix), loop_, stop_, global_ (exact), in any letter case
     if (s.size() == 1 && (f == '?' || f == '.')) return false;
     return m_valid_key(s);
 }
 ustr gen_bare_string(Rng &r, const GenCfg &c) {
     for (;;) {
         ustr s;
-        static const char F[] = "abcefhijkmnopqrtuvwxyzABCEFHIJKMNOPQRTUVWXYZ0123456789+-.?";
+        static const char F[] = "abcdefghijklmnopqrstuvwxyzABCDEFGHIJKLMNOPQRSTUVWXYZ0123456789+-.?";
         static const char G[] = "abcdefghijklmnopqrstuvwxyzABCDEFGHIJKLMNOPQRSTUVWXYZ0123456789+-.?;:'\"#$_\\/,()*=<>";
         s += (char16_t) F[r.below(sizeof F - 1)];
         size_t len = r.chance(1, 60) && c.allow_long ? 2000 + r.below(48) : r.below(16);
